@@ -259,6 +259,8 @@ class MailboxWorld:
         self.on_op = None           # callable(client, op, ok) after an op ran
         self.before_op = None       # callable(client, op) just before
         self.extra_ops = None       # {kind: callable(client)}
+        self.extra_fault_events = None
+        self._ka = None
         self.fault_budget = 0
         self.faults_fired = []
         self.fault_kinds = ()
@@ -346,6 +348,9 @@ class MailboxWorld:
                 self._waited(c, op[2] * 0.05)
         if kind == "wait_steps":
             return self._waited(c, op[1] * 0.05)
+        if kind == "wait_all_delivered_or_steps":
+            return self._op_enabled(c, ("wait_all_delivered", op[1])) or \
+                self._waited(c, op[2] * 0.05)
         if kind == "wait_all_delivered":
             # stands in for an application-level "we are done" handshake: both
             # directions fully delivered (or somebody already closed)
@@ -370,11 +375,28 @@ class MailboxWorld:
         return True
 
     def _waited(self, c, delay):
-        """Time-based wait (a timer keeps the simulated clock moving)."""
+        """Wait measured in simulator events (delay/0.05 of them), so that the
+        scheduler's clock jumps do not shorten it; a keep-alive timer makes an
+        otherwise idle simulation tick."""
         if c.pc not in c._wait_from:
-            c._wait_from[c.pc] = self.sim.now() + delay
-            self.sim.reactor.callLater(delay, lambda: None)
-        return self.sim.now() >= c._wait_from[c.pc]
+            c._wait_from[c.pc] = self.sim.steps + int(round(delay / 0.05))
+            self._keepalive()
+        return self.sim.steps >= c._wait_from[c.pc]
+
+    def _keepalive(self):
+        if self._ka is not None:
+            return
+        waiting = False
+        for c in self.clients:
+            t = c._wait_from.get(c.pc)
+            if t is not None and self.sim.steps < t and c.pc < len(c.script):
+                waiting = True
+        if waiting:
+            self._ka = self.sim.reactor.callLater(0.25, self._ka_tick)
+
+    def _ka_tick(self):
+        self._ka = None
+        self._keepalive()
 
     def _run_op(self, c, op):
         kind = op[0]
@@ -589,6 +611,8 @@ class MailboxWorld:
                     evs.append(("hang_on", lambda: self._f_port("hang")))
             else:
                 evs.append(("port_heal", lambda: self._f_port("ok")))
+        if self.extra_fault_events is not None:
+            evs.extend(self.extra_fault_events())
         if "mbox_replay_stored" in kinds:
             for link in net.links:
                 if link.mode == "message" and link.up and \
